@@ -11,7 +11,7 @@ import numpy as np
 
 ID = "C20"
 SHARDS = {"quick": 8, "thorough": 16}
-BUDGET = {"quick": 50, "thorough": 480}
+BUDGET = {"quick": 300, "thorough": 1800}
 RULE = ("lhs: 1..500 samples x 1..6 parameters with arbitrary finite ranges (tiny, "
         "huge, offset); ppos: sizes 1..500 x cst in [0, 0.5]; standard_normal: "
         "NaN-free vectors with / without ties; pareto_front: 0..60 points x 1..5 "
